@@ -1199,6 +1199,16 @@ func runDB(cfg *config) {
 			}
 			runHistory(cfg, id, rr, o)
 		}
+	case "c12":
+		// every kind of page the engine writes, read back from the file: a tree deep enough for an
+		// internal-node split (the left half of a split node is written with its stale cells behind it),
+		// then a reload and a read of everything
+		id++
+		runDeep(cfg, id, r.Fork(), 1300, false)
+		for i := 0; i < 2*cfg.scale; i++ {
+			id++
+			runLimits(cfg, id, r.Fork())
+		}
 	case "c08":
 		n := 3 * cfg.scale
 		for i := 0; i < n; i++ {
